@@ -174,6 +174,64 @@ func readBudgetRearmed(fd *ast.FuncDecl) bool {
 	return res
 }
 
+// readBudgetRenewedPerValue: in Receive the budget is renewed on every path on which Decode took a
+// complete value off the stream, not only when it returned no error. Read as: the first statement at
+// the top level of the body that assigns `limitedReader.N` from `ReadLimit` comes before the first
+// top-level `if` that returns (the error return that follows Decode), and is not itself under a
+// condition that is just `err == nil`.
+func readBudgetRenewedPerValue(fd *ast.FuncDecl) bool {
+	if fd.Body == nil {
+		return false
+	}
+	isRenewal := func(n ast.Node) bool {
+		found := false
+		ast.Inspect(n, func(x ast.Node) bool {
+			if as, ok := x.(*ast.AssignStmt); ok && len(as.Lhs) == 1 && len(as.Rhs) == 1 &&
+				exprString(as.Lhs[0]) == "t.limitedReader.N" && exprString(as.Rhs[0]) == "t.ReadLimit" && as.Tok == token.ASSIGN {
+				found = true
+			}
+			return true
+		})
+		return found
+	}
+	hasReturn := func(n ast.Node) bool {
+		found := false
+		ast.Inspect(n, func(x ast.Node) bool {
+			if _, ok := x.(*ast.ReturnStmt); ok {
+				found = true
+			}
+			return true
+		})
+		return found
+	}
+	seenDecode := false
+	for _, st := range fd.Body.List {
+		if indexOf(callsIn(st), "t.decoder.Decode") >= 0 {
+			seenDecode = true
+		}
+		if is, ok := st.(*ast.IfStmt); ok {
+			if hasReturn(is.Body) {
+				if seenDecode {
+					return false // an error return after Decode comes first
+				}
+				continue
+			}
+			if isRenewal(is.Body) {
+				// `if err == nil { renew }` is the unrepaired policy in another spelling
+				if be, ok := is.Cond.(*ast.BinaryExpr); ok && be.Op == token.EQL && exprString(be.X) == "err" && exprString(be.Y) == "nil" {
+					return false
+				}
+				return true
+			}
+			continue
+		}
+		if isRenewal(st) {
+			return true
+		}
+	}
+	return false
+}
+
 // receiverClosesOnError: in receiveFromTransport the error branch after transport.Receive closes
 // the transport.
 func receiverClosesOnError(fd *ast.FuncDecl) bool {
